@@ -65,6 +65,10 @@ type OPRSpec struct {
 	// BadAddrWinner (v1 only): valid records whose payout address is not a
 	// valid address string (v1 does not validate it).
 	BadAddrWinner int `json:"bad_addr_winner,omitempty"`
+	// BurnPayout: that many valid records (after the BadAddrWinner ones) pay
+	// to the all-zero address FA1y5ZGu... (a miner burning its reward; before
+	// 2.0.2 that address is the burn address and is zeroed once at 2.0-dev).
+	BurnPayout int `json:"burn_payout,omitempty"`
 }
 
 // SPRSpec describes the staking price records in one block.
